@@ -180,14 +180,25 @@ pub fn run(args: &[String]) {
             }
         }
     }
-    // zero-length run
-    {
+    // zero-length run: the constant continuous solution returns y0 over its whole (tiny) covered span, for every method
+    for method in ALL_METHODS {
         let p = Prob::new(Kind::Harmonic);
-        let opts = Options::builder().dense_output(true).build();
-        let sol = solve_ivp(&p, 1.5, 1.5, &[1.0, 2.0], opts).unwrap();
-        let ok = sol.sol(1.5).map(|v| v == vec![1.0, 2.0]).unwrap_or(false);
-        println!("{{\"kind\":\"dense\",\"case\":\"zero-length\",\"ok\":{},\"why\":\"sol(x0) of the zero-length run\"}}", ok);
-        if !ok { n_fail += 1; }
+        let opts = Options::builder().method(method).dense_output(true).build();
+        let mut why = String::new();
+        match solve_ivp(&p, 1.5, 1.5, &[1.0, 2.0], opts) {
+            Ok(sol) => {
+                let (a, b) = sol.sol_span().unwrap_or((f64::NAN, f64::NAN));
+                for t in [1.5, a, b, 0.5 * (a + b)] {
+                    match sol.sol(t) {
+                        Ok(v) => if v != vec![1.0, 2.0] && why.is_empty() { why = format!("zero-length run: sol({:e}) = {:?} inside its covered span [{:e}, {:e}], expected y0 = [1, 2]", t, v, a, b); },
+                        Err(e) => if why.is_empty() { why = format!("zero-length run: sol({:e}) failed: {:?}", t, e); },
+                    }
+                }
+            }
+            Err(e) => why = format!("solve_ivp error {:?}", e),
+        }
+        println!("{{\"kind\":\"dense\",\"case\":\"zero-length\",\"method\":\"{}\",\"finding_key\":\"c06-zero-length\",\"ok\":{},\"why\":{:?}}}", method_name(method), why.is_empty(), why);
+        if !why.is_empty() { n_fail += 1; }
     }
     println!("{{\"kind\":\"dense-summary\",\"callbacks\":{},\"failures\":{}}}", n_cb, n_fail);
 }
